@@ -14,6 +14,7 @@ if len(sys.argv) > 7:
     os.makedirs(os.path.join(HERE, os.path.dirname(dst)), exist_ok=True)
     shutil.copy(sys.argv[6], os.path.join(HERE, dst))
     entry["replay"] = dst
-doc["findings"] = [f for f in doc["findings"] if f["signature"] != sig] + [entry]
+# one entry per (signature, commit): the same signature may be the symptom of several repaired defects
+doc["findings"] = [f for f in doc["findings"] if (f["signature"], f.get("commit")) != (sig, entry.get("commit"))] + [entry]
 json.dump(doc, open(path, "w"), indent=1)
 print("recorded", sig)
